@@ -312,6 +312,8 @@ def randn_like(input, sigma=1.0, **kwargs):
         so3Type LieTensor:
         tensor([[ 0.5162, -0.4600, -0.9085]])
     '''
+    kwargs.setdefault('dtype', input.dtype)
+    kwargs.setdefault('device', input.device)
     return input.ltype.randn_like(*input.lshape, sigma=sigma, **kwargs)
 
 
